@@ -152,8 +152,10 @@ def _module_gconds(ctx):
             k = ctx.src.find_class("htmltools._core." + cname)
             ms = [n.name for n in k.body if isinstance(n, (_ast.FunctionDef, _ast.AsyncFunctionDef))] + [t.id for n in k.body if isinstance(n, _ast.Assign) for t in n.targets if isinstance(t, _ast.Name)]
             bases = [_ast.unparse(b) for b in k.bases]
-            okk = "_repr_html_" not in ms and "tagify" not in ms and all(b in ("MetadataNode", "object") for b in bases)
-            out.append(GCond(f"G:{cname}:not-self-rendering", okk, f"{cname}({', '.join(bases)}) defines {sorted(set(ms))[:12]}...: no _repr_html_ and no tagify (a metadata node is only ever skipped)"))
+            special = [m_ for m_ in ms if m_ in ("_repr_html_", "tagify", "__copy__", "__deepcopy__", "__reduce__", "__reduce_ex__", "__getstate__", "__setstate__", "__hash__", "__iter__", "__len__", "__getitem__")]
+            okk = not special and all(b in ("MetadataNode", "object") for b in bases)
+            out.append(GCond(f"G:{cname}:not-self-rendering", okk, f"{cname}({', '.join(bases)}) defines none of _repr_html_ / tagify (a metadata node is only ever skipped) and no copy / pickle / "
+                                                                    f"container protocol method (copy.copy of it is the default field-wise copy); found: {special or 'none'}"))
         except Exception as ex:
             out.append(GCond(f"G:{cname}:not-self-rendering", False, f"cannot read class: {ex}"))
     return out
